@@ -2272,26 +2272,29 @@ class Dynamo0p3KernelConstTrans(Transformation):
                 f"Failed to parse kernel '{kernel.name}'. Error reported was "
                 f"'{excinfo}'.") from excinfo
 
+        if (quadrature and arg_list_info.nqp_positions and
+                kernel.eval_shapes != ["gh_quadrature_xyoz"]):
+            # TODO #705 - support the transformation of kernels requiring
+            # other quadrature types (face/edge, multiple).
+            # This is checked before anything is modified so that a
+            # rejected transformation leaves the kernel unchanged.
+            raise TransformationError(
+                f"Error in Dynamo0p3KernelConstTrans transformation. "
+                f"Support is currently limited to 'xyoz' quadrature but "
+                f"found {kernel.eval_shapes}.")
+
         symbol_table = kernel_schedule.symbol_table
         if number_of_layers:
             make_constant(symbol_table, arg_list_info.nlayers_positions[0],
                           number_of_layers)
 
         if quadrature and arg_list_info.nqp_positions:
-            # TODO #705 - support the transformation of kernels requiring
-            # other quadrature types (face/edge, multiple).
-            if kernel.eval_shapes == ["gh_quadrature_xyoz"]:
-                make_constant(symbol_table,
-                              arg_list_info.nqp_positions[0]["horizontal"],
-                              element_order+3)
-                make_constant(symbol_table,
-                              arg_list_info.nqp_positions[0]["vertical"],
-                              element_order+3)
-            else:
-                raise TransformationError(
-                    f"Error in Dynamo0p3KernelConstTrans transformation. "
-                    f"Support is currently limited to 'xyoz' quadrature but "
-                    f"found {kernel.eval_shapes}.")
+            make_constant(symbol_table,
+                          arg_list_info.nqp_positions[0]["horizontal"],
+                          element_order+3)
+            make_constant(symbol_table,
+                          arg_list_info.nqp_positions[0]["vertical"],
+                          element_order+3)
 
         const = LFRicConstants()
         if element_order is not None:
